@@ -32,11 +32,17 @@ type lproc struct {
 	holder  bool
 	res     string
 	running bool
+	// specification oracle: the last attempt of the acquisition in progress created the lock file
+	// itself (O_EXCL succeeded), and nobody else has moved since
+	selfCreated bool
+	alone       bool
+	acquiring   bool
 }
 
 type lworld struct {
 	dir   string
 	procs [4]*lproc
+	viol  string // first violation of the flag oracle
 }
 
 func spelled(dir string, p int) string {
@@ -82,11 +88,17 @@ func (q *lproc) wait() {
 func (w *lworld) apply(tok string) {
 	p := int(tok[1] - '0')
 	q := w.procs[p]
+	for _, o := range w.procs {
+		if o != q {
+			o.alone = false
+		}
+	}
 	switch tok[0] {
 	case 'A':
 		if q.running || q.holder {
 			return
 		}
+		q.acquiring, q.selfCreated, q.alone = true, false, false
 		q.yield, q.resume, q.done = make(chan string), make(chan bool), make(chan struct{})
 		q.running = true
 		q.res = "none"
@@ -113,8 +125,19 @@ func (w *lworld) apply(tok string) {
 		if !q.running {
 			return
 		}
+		prev := q.at
 		q.resume <- true
 		q.wait()
+		if q.acquiring && prev == "lock.create" {
+			// straight from the exclusive create to flock: this process created the file
+			q.selfCreated, q.alone = q.at == "lock.flock", true
+		}
+		if q.acquiring && !q.running {
+			q.acquiring = false
+			if q.holder && q.selfCreated && q.alone && q.res != "ok-fresh" && w.viol == "" {
+				w.viol = fmt.Sprintf("process %d created the lock file itself (exclusive create succeeded in its last attempt), nobody else moved until it held the lock, and it was told %q: an Open would run recovery on a directory nobody left unclean", p, q.res)
+			}
+		}
 	case 'R':
 		if !q.holder || q.running {
 			return
@@ -145,6 +168,7 @@ func (w *lworld) apply(tok string) {
 		if q.running && (q.at == "lock.create" || q.at == "lock.open") {
 			// no descriptor yet: the goroutine is simply never resumed
 			q.running = false
+			q.acquiring = false
 			q.at = ""
 			q.res = "none"
 			go func(r chan bool) { r <- false }(q.resume)
@@ -254,6 +278,12 @@ var lockCorpus = []string{
 	"A2 S2 S2 S2 S2 R2 S2 S2 A0 A1 S0 S1 S1 S1 S1 S1 S0",
 	"A0 A1 S0 S1 S1 S1 S1 S1 D1 S0 S0 S0 S0",
 	"A0 S0 S0 S0 S0 A1 S1 S1 S1 A2 S2 S2 S2",
+	// an opener meets the holder's file (create fails), the holder releases completely, the opener's
+	// plain open finds nothing, it retries and creates the file itself: fresh
+	"A0 S0 S0 S0 S0 A1 S1 R0 S0 S0 S1 S1 S1 S1 S1 S1",
+	// ... or it had opened the holder's file before the release: flock succeeds after the release, the
+	// verification fails (path gone), retry, own file: fresh
+	"A0 S0 S0 S0 S0 A1 S1 S1 R0 S0 S0 S1 S1 S1 S1 S1 S1 S1",
 }
 
 // genC13db: the database level. A competing Open fails with "locked" and changes nothing; a
@@ -374,9 +404,11 @@ func genC13(r *rng, tier string, res *Result) {
 	defer os.RemoveAll(tmp)
 	n := scale(tier, 300, 6000)
 	type run struct {
-		sched []string
-		impl  []string
-		multi int // first event with more than one holder, or -1
+		sched  []string
+		impl   []string
+		multi  int // first event with more than one holder, or -1
+		flag   string
+		flagAt int
 	}
 	var runs []*run
 	execute := func(idx int, fixed []string, length int) *run {
@@ -398,6 +430,9 @@ func genC13(r *rng, tier string, res *Result) {
 			rn.impl = append(rn.impl, tok+" -> "+w.show())
 			if w.holders() > 1 && rn.multi < 0 {
 				rn.multi = j
+			}
+			if w.viol != "" && rn.flag == "" {
+				rn.flag, rn.flagAt = w.viol, j
 			}
 		}
 		return rn
@@ -425,6 +460,12 @@ func genC13(r *rng, tier string, res *Result) {
 			res.Findings = append(res.Findings, &Finding{Kind: "spec", Case: fmt.Sprintf("C13/%d", i), Step: rn.multi, Cmd: sched[rn.multi],
 				Impl:     []string{"more than one simultaneous holder of the lock", rn.impl[rn.multi]},
 				Expected: []string{"at most one holder"}, Program: sched})
+			continue
+		}
+		if rn.flag != "" {
+			res.Findings = append(res.Findings, &Finding{Kind: "spec", Case: fmt.Sprintf("C13/%d", i), Step: rn.flagAt, Cmd: sched[rn.flagAt],
+				Impl:     []string{rn.flag, rn.impl[rn.flagAt]},
+				Expected: []string{"'fresh' for the process that created the lock file itself, undisturbed"}, Program: sched})
 			continue
 		}
 		for j, line := range rn.impl {
